@@ -219,8 +219,14 @@ func (e *Engine) verifyFunc(pkgPath, key string) (rep FuncReport) {
 		}
 		x.checkPost(st, r, ct)
 		// vacuity guard: at least one return path must be reachable under the contracts assumed on the way
+		must := false
+		if n := len(f.results); n > 0 && len(r.vals) == n {
+			if lv := r.vals[n-1]; lv.K == KIface && lv.Tag == "0" && isErrorType(f.results[n-1].Type()) {
+				must = true // "return ..., nil": the success path of the function
+			}
+		}
 		e.obls = append(e.obls, &Obligation{Name: f.name + "#cover:ret" + itoa(i+1), Kind: "cover-ret", Fn: f.name, Pos: posStr(e.fset, r.pos),
-			Desc: "return path is reachable", PC: st.pc, Goal: "false", Cover: true, Quick: true, Inputs: inputs})
+			Desc: "return path is reachable", PC: st.pc, Goal: "false", Cover: true, Quick: !must, Must: must, Inputs: inputs})
 	}
 	rep.Obligations = len(e.obls) - before
 	return
@@ -253,7 +259,11 @@ func (x *Exec) checkPost(s *State, r *retState, ct *Contract) {
 	for _, en := range ct.Ensures {
 		x.oblige(s, "post", r.pos, env.evalBool(en), "postcondition: "+en.Src)
 	}
-	if ct.HasMod || len(ct.Ensures) > 0 || ct.Pure {
+	if ct.Opts["frame"] == "assumed" {
+		// the modifies clause is used at call sites but not checked against the body
+		x.eng.note("frame (modifies clause) of " + f.name + " is assumed, not checked against its body")
+		x.eng.assumed["frame of "+f.name] = true
+	} else if ct.HasMod || len(ct.Ensures) > 0 || ct.Pure {
 		x.checkFrame(s, ct)
 	}
 	if len(s.held) > 0 && ct.Opts["may_hold_lock"] == "" {
@@ -285,6 +295,7 @@ func (x *Exec) checkFrame(s *State, ct *Contract) {
 		all    bool
 	}
 	allowed := map[string][]cell{}
+	var anyH []string // objects behind interface values: allowed in every pointer-cell array
 	everything := false
 	for _, m := range ct.Modifies {
 		e := *env
@@ -328,6 +339,10 @@ func (x *Exec) checkFrame(s *State, ct *Contract) {
 			}
 		case *ast.StarExpr:
 			base := e.eval(t.X)
+			if base.K == KIface {
+				anyH = append(anyH, base.Dat)
+				continue
+			}
 			pt := under(base.T).(*types.Pointer)
 			for _, l := range leavesOf(pt.Elem()) {
 				name := "H$" + typeKey(pt.Elem()) + "$" + l.path
@@ -393,6 +408,9 @@ func (x *Exec) checkFrame(s *State, ct *Contract) {
 		}
 		for _, c := range allowed[name] {
 			cond = append(cond, mkNot(mkEq(r, c.ref)))
+		}
+		for _, a := range anyH {
+			cond = append(cond, mkNot(mkEq(r, a)))
 		}
 		goal := mkImp(mkAnd(cond...), mkEq(mkSel(cur, r), mkSel(old, r)))
 		x.oblige(s, "frame", f.body.Rbrace, goal, "only fields named in modifies change ("+name+")")
